@@ -46,18 +46,27 @@ def _norm(script, lines):
                 l = "B"
             elif ev[0] == "cmd" and str(ev[2]).upper() in LOOSE and l.startswith("R ") and l not in ("R -", "R !"):
                 l = "R ok"
-            res.append(l)
+            res.append((ev, l))
     return res
 
 _plain_compare = framework.compare_lines
 def _compare(script, impl_lines, model_lines, reply_opts=None, digest_opts=None):
     a, b = _norm(script, impl_lines), _norm(script, model_lines)
     for i in range(max(len(a), len(b))):
-        x = a[i] if i < len(a) else "<missing>"
-        y = b[i] if i < len(b) else "<missing>"
+        ev, x = a[i] if i < len(a) else (None, "<missing>")
+        _, y = b[i] if i < len(b) else (None, "<missing>")
         if x != y:
             if x.startswith("G ") and y.startswith("G ") and norm_digest(x, round_floats=True, **(digest_opts or {})) == norm_digest(y, round_floats=True, **(digest_opts or {})):
                 continue
+            if ev and ev[0] == "cmd" and x.startswith("R ") and y.startswith("R ") and "!" not in (x[2:3], y[2:3]) and "-" not in (x[2:3], y[2:3]):
+                # data replies: numbers printed as text vs typed floats, replies built by ranging over a Go map
+                opts = reply_opts(ev[2:]) if reply_opts else {}
+                try:
+                    p, q = norm_tree(parse_reply(x[2:]), parse_reply(y[2:]), **opts)
+                    if p == q:
+                        continue
+                except Exception:
+                    pass
             return (i, x, y)
     return None
 
@@ -90,7 +99,57 @@ def oracle(script, impl_lines, spec_lines):
             last[k] = ls[0]
         elif k not in ("gate", "denyrun", "newconn"):
             last = {}
+    if script.id.startswith("kx"):
+        return keyed_oracle(script, al)
     return None
+
+def _unhex(h):
+    return "" if h == "-" else bytes.fromhex(h).decode("latin-1")
+
+def kx_patterns(script):
+    """(read patterns, write patterns) of user u1 from the script's own ACL SETUSER event (the kx stream gives the
+    user explicit key rules, so the defaults of Normalise never apply)"""
+    import fnmatch
+    rd, wr = [], []
+    for ev in script.events:
+        if ev[0] == "cmd" and [str(x).upper() for x in ev[2:4]] == ["ACL", "SETUSER"] and ev[4] == "u1":
+            for t in ev[5:]:
+                if t.startswith("~"): rd.append(t[1:]); wr.append(t[1:])
+                elif t.upper().startswith("%RW~"): rd.append(t[4:]); wr.append(t[4:])
+                elif t.upper().startswith("%R~"): rd.append(t[3:])
+                elif t.upper().startswith("%W~"): wr.append(t[3:])
+    return rd, wr
+
+def keyed_oracle(script, al):
+    """kx stream: around every command executed on connection 2, only keys of database 0 matched by a write pattern of
+    the user may differ between the data digest before and the one after (value, deadline, presence)"""
+    import fnmatch
+    rd, wr = kx_patterns(script)
+    prev = None
+    for idx, (ev, ls) in enumerate(al):
+        if ev[0] == "digest" and ls and ls[0].startswith("G "):
+            cur = parse_digest(ls[0])["dbs"]
+            if prev is not None and prev[1] is not None:
+                before, cmd_idx, cmd_ev = prev[0], prev[1], prev[2]
+                for db in set(before) | set(cur):
+                    b, a = before.get(db, {}), cur.get(db, {})
+                    for k in set(b) | set(a):
+                        if b.get(k) != a.get(k):
+                            key = _unhex(k)
+                            if db != 0 or not any(fnmatch.fnmatchcase(key, p) for p in wr):
+                                return {"index": cmd_idx, "event": cmd_ev, "impl": {"db": db, "key": key, "before": b.get(k), "after": a.get(k)},
+                                        "reference": "an allowed command changes only keys of its database matched by the user's write patterns %r" % (wr,),
+                                        "what": "key outside the write patterns changed"}
+            prev = (cur, None, None)
+        elif ev[0] == "cmd" and ev[1] == 2 and prev is not None:
+            prev = (prev[0], idx, ev)
+        elif ev[0] == "cmd":
+            prev = None
+    return None
+
+def kx_changed(script, impl_lines):
+    ds = [l for l in impl_lines if l.startswith("G ")]
+    return any(norm_digest(a, with_mem=False) != norm_digest(b, with_mem=False) for a, b in zip(ds, ds[1:]))
 
 class C06(PropertyCheck):
     prop = "C06"
@@ -117,6 +176,7 @@ class C06(PropertyCheck):
             "random_users": gen_acl.random_users(rng, 40 if q else 1500, t),
             "histories": gen_acl.histories(rng, 150 if q else 4000, t, 40, "h"),
             "malformed": gen_acl.histories(rng, 60 if q else 1500, t, 25, "m", malformed=True),
+            "keyed_exec": gen_acl.keyed_exec(rng, 36 if q else 1500, 25 if q else 40),
         }
 
     def spec_script(self, script, impl_lines):
@@ -131,7 +191,26 @@ class C06(PropertyCheck):
         return "corr:%s:line%d" % (self.prop, idx)
 
     def nontrivial(self, script, impl_lines):
+        if script.id.startswith("kx"):
+            return "R -" in impl_lines and kx_changed(script, impl_lines)
         return "Z allow" in impl_lines and "Z deny" in impl_lines
+
+    def in_known_trigger(self, script):
+        # key-less commands that touch every key: recorded, never generated by keyed_exec
+        if script.id.startswith("kx") and any(e[0] == "cmd" and str(e[2]).upper() in ("FLUSHDB", "FLUSHALL") for e in script.events):
+            return "KF-C06-flush-keyless"
+        return None
+
+    def replay_known(self, kf):
+        if kf["id"] != "KF-C06-flush-keyless":
+            return False
+        hits = 0
+        for w in ("FLUSHDB", "FLUSHALL"):
+            c = gen_acl.kx_flush_witness(w)
+            im = run_impl([c], self.per_script_timeout()).get(c.id, [])
+            v = keyed_oracle(c, align(c, im))
+            hits += bool(v)
+        return hits == 2
 
     def exhaustive_note(self):
         n = len(gen_acl.RULES)
@@ -143,12 +222,18 @@ class C06(PropertyCheck):
     def rule(self):
         return ("Q events compare the decision of the real gate (getCommand + GetSubCommand + AuthorizeConnection) with model and policy; "
                 "D events also run a denied command through handleCommand between data/ACL+connection/pub-sub digests; histories interleave "
-                "SETUSER/DELUSER edits, AUTH/HELLO attempts and probes on 3 connections. non-trivial = at least one allow and one deny")
+                "SETUSER/DELUSER edits, AUTH/HELLO attempts and probes on 3 connections. non-trivial = at least one allow and one deny. "
+                "keyed_exec: a user with +@all and restrictive read/write key patterns executes data commands of every module (single- and "
+                "multi-key, store forms, option words) through the gate on connection 2 with a data digest before and after each; oracle: "
+                "only keys of database 0 matched by a write pattern differ between the two digests (value, deadline, presence); "
+                "non-trivial there = at least one command refused and at least one digest changed")
 
     def assumptions(self):
         return ["glob patterns restricted to the fragment * ? literal (executable instance of glob_match); gobwas/glob is trusted beyond it",
                 "the policy quantifies over the keys/channels the command's KeyExtractionFunc reports (Gen/KeyExtract.v ties the model's "
-                "extraction to the code's); that the reported keys cover the keys a handler really touches is not proved here",
+                "extraction to the code's); that the reported keys cover the keys a handler touches is proved for every modelled handler "
+                "(C06_keys_cover, C06_gate_keys_cover); FLUSHDB / FLUSHALL (key-less, touch everything) are the recorded finding KF-C06-flush-keyless; "
+                "RANDOMKEY TOUCH OBJECTFREQ OBJECTIDLETIME ZRANDMEMBER have no model handler (read by inspection: they use the keys of their key function)",
                 "categories are those declared in the command table (Gen/CmdTable.v)",
                 "QUIT is answered with EOF before the gate (it closes the connection); it is not a registered command"]
 
